@@ -125,11 +125,14 @@ def run(ctx):
                 if m:
                     probes.append(m.groups())
                     if m.group(2) != m.group(3):
-                        hits.insert(0, {"engine": engine_name(), "clause": "C10.real_hangup" if "gone" in m.group(1) else ("C11.real_interrupt" if "signal" in m.group(1) else "C10.real_poll"),
+                        hits.insert(0, {"engine": engine_name(), "clause": ("C20.real_send_error" if "output-gone" in m.group(1) else "C11.real_interrupt" if "signal" in m.group(1)
+                                                   else "C10.real_hangup" if "gone" in m.group(1) else "C10.real_poll"),
                                         "known_class": None,
                                         "input": {"situation": m.group(1), "kind": "poll-probe"},
                                         "observed": m.group(3), "expected": m.group(2),
-                                        "note": "RealDriver::poll on prepared pipes; a wake-up that is not reported is lost for ever under edge-triggered readiness"})
+                                        "note": ("the real loop with the real driver in a child process; the virtual keyboard's reader is gone, the write fails with EPIPE and the loop must return the error"
+                                                 if "output-gone" in m.group(1) else
+                                                 "RealDriver::poll on prepared pipes; a wake-up that is not reported is lost for ever under edge-triggered readiness")})
         except OSError:
             pass
         res.update({"ok": True, "diffs": diffs[:40], "hits": hits[:40]})
